@@ -16,7 +16,7 @@ SPEC = {
     'assumptions': [
         'the model of the cbor driver, of the generic code decoding into interface{} and of bytesDecReader is hand written; it is tied to the source by running it (vm_compute) on the inputs the real Encoder/Decoder ran (harness/cmd/wirecbor), including all 256 first bytes and all 65536 half floats',
         'hardware float conversions/arithmetic (CVTSS2SD, CVTSD2SS, CVTSI2SD, ADDSD, DIVSD, MULSD, CVTTSD2SQ) are modelled on bit patterns and tied by the leaf stream, not proved against IEEE-754',
-        'not modelled (the model answers "unsupported" and the case is skipped): maps with duplicate keys decoded into interface{}, tag 0 text that is not strict RFC 3339 UTC, tags 4/5 (decimal fraction, bigfloat), bignum tags whose content is not a byte/text string, times beyond +-2^62 s, ValidateUnicode',
+        'not modelled (the model answers "unsupported" and the case is skipped): maps with duplicate keys decoded into interface{}, tag 0 text that is not strict RFC 3339 UTC, bignum tags whose content is not a byte/text string, bignum / decimal tags nested under tag 1, ValidateUnicode. Modelled since the repairs F10-1/F02-5/F10-3: tags 4/5 (decimal fraction, bigfloat); since F10-2: tag 1 outside +-2^62 s is an error',
     ],
     'trusted_extra': ['modelled, not verified: cbor.go / cbor.base.go, decode.go kInterfaceNaked + fastpath DecSliceIntfY + kMap for interface{} destinations, reader.go bytesDecReader; reflection, time.Time, math/big are exercised only through the correspondence'],
 }
